@@ -141,6 +141,10 @@ class Size(tuple):
 
 # ------------------------------------------------------------------ integer helpers (python int or T)
 
+def _cint(x):
+    return isinstance(x, int) and not hasattr(x, '_term')
+
+
 def ti(x):
     """shape entry -> T (sort I)"""
     if isinstance(x, T):
@@ -701,8 +705,31 @@ class Tensor:
         """row-major re-indexing (C-contiguous semantics of reshape on the logical element order).
         Returned as a fresh tensor whose in-place modification is out of reach (alias status unknown)."""
         cur = self._shape
-        if any(isinstance(s_, int) and s_ == -1 for s_ in shape):
-            raise Unsupported('reshape with -1 in a general reshape')
+        if any(_cint(s_) and s_ == -1 for s_ in shape):
+            # infer the missing size by cancelling the factors of the known sizes against those of the current shape
+            def factors(dims):
+                fs, k = [], 1
+                for d_ in dims:
+                    t_ = ti(d_)
+                    for a_ in (t_.args if t_.op == 'mul' else (t_,)):
+                        if a_.op == 'const':
+                            k *= int(a_.args[0])
+                        else:
+                            fs.append(a_)
+                return fs, k
+            have, kh = factors(cur)
+            known, kk = factors([s_ for s_ in shape if not (_cint(s_) and s_ == -1)])
+            for f_ in known:
+                if f_ in have:
+                    have.remove(f_)
+                else:
+                    raise Unsupported('reshape with -1: cannot infer the missing size symbolically')
+            if kk == 0 or kh % kk != 0:
+                raise Unsupported('reshape with -1: sizes do not divide')
+            miss = tm.mul(tm.const(kh // kk, 'I'), *have) if have else tm.const(kh // kk, 'I')
+            from ..proxies import SInt as _SInt
+            mval = int(miss.args[0]) if miss.op == 'const' else _SInt(miss)
+            shape = [mval if (_cint(s_) and s_ == -1) else s_ for s_ in shape]
         c = Ctx.current
         tot_a, tot_b = tm.IONE, tm.IONE
         for s_ in cur:
